@@ -1,3 +1,5 @@
 import Sqljson.Audit
 import Sqljson.Props.C12
+import Sqljson.Props.C12b
 #audit_ns C12 Sqljson.C12
+#audit_ns C12 Sqljson.C12b
